@@ -80,7 +80,9 @@ var templateAccessors = map[string]bool{"Groupings": true, "Augments": true, "De
 // expanded copy of their owner and keep naming the statement in the grouping
 // body as their parent, so their Parent() is a way into an unexpanded template.
 var attributeTypes = map[string]bool{"*meta.Extension": true, "*meta.IfFeature": true, "*meta.Must": true, "*meta.When": true,
-	"*meta.Type": true, "*meta.Enum": true, "*meta.Bit": true, "*meta.Range": true, "*meta.Pattern": true}
+	"*meta.Type": true, "*meta.Enum": true, "*meta.Bit": true, "*meta.Range": true, "*meta.Pattern": true,
+	// typedefs and groupings declared inside a node of a grouping are shared by the copies as well
+	"*meta.Typedef": true, "*meta.Grouping": true}
 
 func New() *Dumper {
 	d := &Dumper{seen: map[uintptr]int{}, MaxObjs: 200000, pkgPrefix: "github.com/freeconf/yang/"}
